@@ -32,6 +32,8 @@ type result struct {
 	kind  string   // ok | err | panic | hang
 	items []string // canonical items, sorted (multiset)
 	lines int      // for the VEX line loop: number of distinct record names seen
+	// fetchFailed: the error came from Fetch (the pipeline layer only)
+	fetchFailed bool
 }
 
 func (r result) ok() bool { return r.kind == "ok" }
